@@ -364,10 +364,13 @@ class RefsContainer:
             prefix is stripped from the ref names returned.
         """
         keys: set[Ref] = set()
-        base_len = len(base) + 1
+        # Match whole path components, with or without a trailing slash on
+        # the base: b"refs/heads" and b"refs/heads/" both mean the refs whose
+        # names start with b"refs/heads/".
+        prefix = base.rstrip(b"/") + b"/" if base.strip(b"/") else b""
         for refname in self.allkeys():
-            if refname.startswith(base):
-                keys.add(Ref(refname[base_len:]))
+            if refname.startswith(prefix):
+                keys.add(Ref(refname[len(prefix) :]))
         return keys
 
     def as_dict(self, base: Ref | None = None) -> dict[Ref, ObjectID]:
@@ -958,14 +961,16 @@ class DiskRefsContainer(RefsContainer):
     def subkeys(self, base: Ref) -> set[Ref]:
         """Return subkeys under a given base reference path."""
         subkeys: set[Ref] = set()
+        # whole path components only, for loose and packed refs alike
+        prefix = base.rstrip(b"/") + b"/" if base.strip(b"/") else b""
 
         for key in self._iter_loose_refs(base):
-            if key.startswith(base):
-                subkeys.add(Ref(key[len(base) :].strip(b"/")))
+            if key.startswith(prefix):
+                subkeys.add(Ref(key[len(prefix) :]))
 
         for key in self.get_packed_refs():
-            if key.startswith(base):
-                subkeys.add(Ref(key[len(base) :].strip(b"/")))
+            if key.startswith(prefix):
+                subkeys.add(Ref(key[len(prefix) :]))
         return subkeys
 
     def allkeys(self) -> set[Ref]:
